@@ -7,6 +7,9 @@ Decided (structural, necessary conditions; DESIGN.md section 5 / C03):
   R-VAL   argument validation precedes every tree access and rejects with ERR_BAD_USAGE
   R-TAB   decision table of check_empty_scan_range == the documented table of kvs.h (finite enumeration)
   R-STG   (shared with C13) name-based overload resolves the storage first
+  R-MAX   truncation: after every growth of the result list (a push, or a nested scan that received the list) the test
+          `max_size != 0 && list.size() >= max_size` is evaluated before the list can grow again or the visit
+          reports OK_SCAN_CONTINUE (a necessary condition of "truncated to the first max_size entries")
 """
 from yk.facts import (AnalysisBroken, CALL_KINDS, call_args, call_recv, is_call, root, root_var, short_loc, term,
                       term_str, vname)
@@ -628,13 +631,172 @@ def interp_range(f, lk, le, rk, re_, l, r, rel, rempty):
             raise AnalysisBroken('R-TAB: pruned edge taken')
 
 
+# ---------------------------------------------------------------------------
+# R-MAX: the truncation test dominates every further growth
+# ---------------------------------------------------------------------------
+
+def _is_tuple_list_type(t):
+    t = t.replace(' ', '')
+    return t.startswith('std::vector<std::tuple<') and t.endswith('&')
+
+
+def _is_size_t(t):
+    return t.replace('const', '').strip() in ('std::size_t', 'unsigned long', 'size_t')
+
+
+GROW = ('emplace_back', 'push_back', 'insert', 'emplace')
+SHRINK = ('erase', 'resize', 'pop_back', 'clear')
+CONT = 'yakushima::status::OK_SCAN_CONTINUE'
+
+
+def rule_max(S):
+    facts = S.facts()
+    S.rule('R-MAX', 'scan_border<V>: after every growth of the result list (push, nested scan handed the list) the '
+                    'truncation test (max_size == 0, or list.size() >= / == max_size taken false) is evaluated before '
+                    'the next growth and before `return OK_SCAN_CONTINUE`; a roll-back restores the entry state')
+    fns = facts.some('yakushima::scan_border', lambda f: not f.is_lambda, 'scan_border<V>')
+    n_grow = 0
+    n_tests = 0
+    for f in fns:
+        tl = R.params_of_type(f, _is_tuple_list_type)
+        mx = R.params_of_type(f, _is_size_t)
+        if len(tl) != 1 or len(mx) != 1:
+            raise AnalysisBroken('R-MAX: scan_border has no unique (result list, max_size) parameter pair')
+        tl, mx = tl[0]['id'], mx[0]['id']
+        lambdas = facts.lambdas_of(f)
+        rollback = set()
+        for g in lambdas:
+            if any(n['k'] in CALL_KINDS and n.get('cn') in SHRINK and root_var(g, call_recv(g, n)) == tl
+                   for n in g.all_nodes()):
+                rollback.add(g.fid)
+        grow_sites = set()
+        tests = set()
+        fname = 'yakushima::scan_border<%s>' % f.targs
+        obs = {}
+
+        def need_clean(g, n, st, ctx, what):
+            site = '%s %s' % (what, short_loc(n))
+            o = obs.setdefault(site, {'ok': True, 'loc': short_loc(n), 'path': None})
+            if st[0] != 'C':
+                o['ok'] = False
+                if o['path'] is None:
+                    o['path'] = ctx.witness()
+
+        def is_size_of_list(g, n):
+            n = g.strip(n, casts=True)
+            return n is not None and n['k'] in CALL_KINDS and n.get('cn') == 'size' and \
+                root_var(g, call_recv(g, n)) == tl
+
+        def is_max(g, n):
+            n = g.strip(n, casts=True)
+            return n is not None and n['k'] == 'DeclRefExpr' and n.get('id') == mx
+
+        def make_step(g):
+            def step(ctx, n, st):
+                gr, lastret, fs = st
+                fs = R.track_assign(g, n, fs, facts)
+                if n['k'] in CALL_KINDS and n.get('cn') in GROW and root_var(g, call_recv(g, n)) == tl:
+                    grow_sites.add(n.get('loc'))
+                    need_clean(g, n, st, ctx, 'push')
+                    return ('G', lastret, fs)
+                if n['k'] in CALL_KINDS and n.get('cn') in SHRINK and root_var(g, call_recv(g, n)) == tl:
+                    return ('C', lastret, fs)
+                tg = R.lambda_target(facts, g, n)
+                if tg is not None:
+                    if tg.fid in rollback:
+                        return ('C', lastret, fs)
+                    outs, _ = R.inline_states(facts, tg, (gr, None, fs), make_step(tg), make_branch(tg))
+                    return list(outs)
+                if n['k'] in CALL_KINDS and (n.get('callee') or '').startswith('yakushima::') and \
+                        any(root_var(g, a) == tl for a in call_args(g, n)):
+                    grow_sites.add(n.get('loc'))
+                    need_clean(g, n, st, ctx, 'nested scan')
+                    return ('G', lastret, fs)
+                if n['k'] == 'ReturnStmt':
+                    rc = R.ret_const(g, n, fs)
+                    if g is f:
+                        if rc == CONT or rc is None:
+                            need_clean(g, n, st, ctx, R.ret_desc(g, n))
+                        return None
+                    return (gr, rc or '?', fs)
+                return (gr, lastret, fs)
+            return step
+
+        def make_branch(g):
+            def branch(ctx, blk, idx, st):
+                gr, lastret, fs = st
+                fs2 = R.refine(g, blk, idx, fs)
+                if fs2 is None:
+                    return None
+                t = blk.term
+                if t and len(blk.succ) == 2 and 'cond' in t:
+                    c = g.strip(g.node(t['cond']))
+                    flip = False
+                    while c is not None and c['k'] == 'UnaryOperator' and c.get('op') == '!':
+                        flip = not flip
+                        c = g.strip(g.ch(c)[0])
+                    truth = (idx == 0) != flip
+                    if c is not None and c['k'] == 'BinaryOperator':
+                        a, b = g.ch(c)[0], g.ch(c)[1]
+                        op = c.get('op')
+                        # max_size != 0 / max_size == 0
+                        for x, y in ((a, b), (b, a)):
+                            if is_max(g, x) and R.cv_through(g, y) == 0 and op in ('!=', '==', '>'):
+                                tests.add(c.get('loc'))
+                                unlimited = (not truth) if op in ('!=', '>') else truth
+                                if unlimited:
+                                    gr = 'C'
+                        # size() >= max_size, max_size <= size(), size() == max_size
+                        reached = None
+                        if is_size_of_list(g, a) and is_max(g, b) and op in ('>=', '=='):
+                            reached = truth
+                        elif is_max(g, a) and is_size_of_list(g, b) and op in ('<=', '=='):
+                            reached = truth
+                        elif is_size_of_list(g, a) and is_max(g, b) and op == '<':
+                            reached = not truth
+                        elif is_max(g, a) and is_size_of_list(g, b) and op == '>':
+                            reached = not truth
+                        if reached is not None:
+                            tests.add(c.get('loc'))
+                            if not reached:
+                                gr = 'C'
+                        # result of an inlined closure compared with a status constant
+                        if op in ('==', '!='):
+                            for x, y in ((a, b), (b, a)):
+                                xs = g.strip(x, casts=True)
+                                if xs is not None and R.lambda_target(facts, g, xs) is not None and \
+                                        lastret not in (None, '?'):
+                                    cy = R.const_of(g, g.strip(y, casts=True))
+                                    if cy is not None:
+                                        eq = (lastret == cy)
+                                        if (op == '==') != truth:
+                                            eq = not eq
+                                        if not eq:
+                                            return None
+                return (gr, lastret, fs2)
+            return branch
+
+        ex = Explorer(f, make_step(f), make_branch(f))
+        ex.run(('C', None, frozenset()))
+        for site, o in sorted(obs.items()):
+            S.ob('R-MAX', fname, site, o['ok'],
+                 'reached with the truncation test %s since the last growth of the result list' %
+                 ('evaluated' if o['ok'] else 'NOT evaluated'), loc=o['loc'], path=o['path'])
+        n_grow += len(grow_sites)
+        n_tests += len(tests)
+        S.count('R-MAX: CFG visits', ex.visits)
+    S.require('R-MAX', 'growth sites of the result list in scan_border', n_grow, 2 * len(fns))
+    S.require('R-MAX', 'truncation tests', n_tests, 2 * len(fns))
+
+
 def run(S):
     S.undecided = ['that the returned set equals the interval (endpoint translation between layers, ordering, '
-                   'truncation to max_size, values) - runtime data',
+                   'values) - runtime data; R-MAX decides only that the truncation test dominates every growth',
                    'R-INF covers the scan family (interface_scan.h, scan_helper.h); the cursor API is covered by C10']
     S.assumptions = ['a (string_view, scan_endpoint) parameter pair is recognised by adjacency in the parameter list']
     rule_inf(S)
     rule_val(S)
     rule_tab(S)
+    rule_max(S)
     from checks import C13
     C13.rule_stg(S, only=('yakushima::scan',))
